@@ -9,7 +9,7 @@
 //          H <id>                                                            (new history on a new default State)
 //          <op lines> ... END
 // ops:     T x | Q i x | U i x | Z i x | P e j x | E e b | C j b | LA i lev x | LK i lev | UL i | O b
-//          GX b v | GM x | GD x | GZ x | R g | X k | PR | CMP
+//          GX b v | GM x | GD x | GZ x | R g | X k | PR | CMP | CP
 // Public API only.
 #include "Simbody.h"
 #include <cstdio>
@@ -315,6 +315,7 @@ int main() {
                 else if (k == 5) { if (Y.hasGrav && g >= Stage::Position) (void)Y.grav.getBodyForces(s); } }
             else if (op == "PR") { Y.sys.realize(s, Stage::Time); Y.sys.prescribeQ(s); Y.sys.realize(s, Stage::Position); Y.sys.prescribeU(s); }
             else if (op == "CMP") { compare(Y, s); }
+            else if (op == "CP") { State* c = new State(s); sp.reset(c); }     // copy construction; the history continues on the copy
             else { printf("BADOP %s\n", op.c_str()); continue; }
         } catch (const std::exception& ex) {
             std::string m = ex.what(); for (char& ch : m) if (ch == '\n') ch = ' ';
